@@ -270,3 +270,23 @@ def run(ctx):
     from .c05 import tmp_unique_in_workspace
     tmp_unique_in_workspace(ctx, 'C12.8', 'the patch never names it, so the undo log does not record it and a rollback cannot bring it back.', crates=('rip_workspace',))
     ctx.ob('C12.8', 'workspace', 'workspace-tmp-scanned', True, 'tmp + rename pairs of rip-workspace scanned')
+
+    # ---------------------------------------------------------------- C12.9
+    ctx.rule('C12.9', 'one section, one operation, in order: the parser only ever appends to the list of operations — nothing in rip_workspace::patch reaches back into an operation that was already parsed (last_mut / get_mut / iter_mut / IndexMut / pop / retain on a Vec<PatchOp>). Sections are applied one after the other, each to the file as the previous one left it; folding a later section into an earlier one changes where its hunks search and which occurrence they edit.')
+    back = []
+    npush = 0
+    for p_, g in sorted(P.fns.items()):
+        if not p_.startswith('rip_workspace::patch::'):
+            continue
+        for s_ in g.sites():
+            if not s_.args or not any('PatchOp' in x for x in s_.ga + [g.lty(r_) or '' for r_ in [g.root_local(s_.args[0], through_calls=(r'::deref_mut$', r'::deref$'))] if r_ is not None]):
+                continue
+            if re.search(r'alloc::vec::Vec::<T, A>::push$', s_.callee or ''):
+                npush += 1
+                ctx.touch(g)
+            if re.search(r'::(last_mut|first_mut|get_mut|iter_mut|pop|retain|retain_mut|remove|swap_remove|truncate|drain|split_off|dedup\w*)$|IndexMut<.*>>::index_mut$', s_.callee or ''):
+                back.append((g, s_))
+    ctx.floor('C12.9', 'pushes of parsed operations', npush, 3)
+    ctx.ob('C12.9', back[0][0] if back else 'rip_workspace::patch', 'parsed-ops-append-only', not back,
+           '%d push site(s); no operation is edited or removed after it was parsed' % npush if not back else
+           '%s reaches back into the parsed operations (line %s): an earlier section is rewritten by a later one instead of being followed by it' % (back[0][1].name, back[0][1].line), line=back[0][1].line if back else 0)
